@@ -27,16 +27,16 @@ for f in sorted(glob.glob(f'{V}/seeded/C*-*/meta.json')):
     if sid in st:
         n_missed_first += 1
         note = f"initially {st[sid]['initially']} → {st[sid]['then']}"
-    rnd = {'A': '1', 'B': '1', 'C': '2', 'D': '2', 'E': '3', 'F': '3', 'G': '4', 'H': '4', 'I': '5', 'J': '5', 'K': '6', 'L': '6'}.get(sid[-1], '7')
+    rnd = {'A': '1', 'B': '1', 'C': '2', 'D': '2', 'E': '3', 'F': '3', 'G': '4', 'H': '4', 'I': '5', 'J': '5', 'K': '6', 'L': '6', 'M': '7', 'N': '7'}.get(sid[-1], '8')
     rows.append(f"| {sid} | {rnd} | {short.get(sid, (m.get('summary') or '')[:150]).replace('|', '/')} | {'yes' if ok else 'NOT fully (see meta.json)'} | {', '.join(det) or '**none**'} | {note.replace('|', '/')} |")
 
 out = []
 out.append("## 9. Sensitivity: which checks catch which seeded changes\n")
-out.append(f"""Seven rounds of *independent* seeding: in every round, for every property, a fresh sub-agent (round 1: variants A, B;
-round 2: C, D; round 3: E, F; round 4: G, H; round 5: I, J; round 6: K, L; round 7, in a later session: M, N) was given only the property's text (`tools/seed_prompt.py`) and a scratch git worktree of /repo
+out.append(f"""Eight rounds of *independent* seeding: in every round, for every property, a fresh sub-agent (round 1: variants A, B;
+round 2: C, D; round 3: E, F; round 4: G, H; round 5: I, J; round 6: K, L; rounds 7 and 8, in a later session: M, N and – for eight of the properties – O, P) was given only the property's text (`tools/seed_prompt.py`) and a scratch git worktree of /repo
 under /tmp – nothing from /verif, nothing about how anything is checked – and asked for two realistic changes that break the
-property, still compile, and pass the existing tests, each with a demonstration.  Rounds 2–7 asked for breaks that are
-"not the first thing one would think of"; rounds 3–7 additionally listed one-line descriptions of the earlier rounds' changes for
+property, still compile, and pass the existing tests, each with a demonstration.  Rounds 2–8 asked for breaks that are
+"not the first thing one would think of"; rounds 3–8 additionally listed one-line descriptions of the earlier rounds' changes for
 that property (the `change` column below, nothing else) so that effort went elsewhere.  Each delivery was confirmed by
 `tools/seed_eval.py` on two scratch copies of /repo's HEAD (patch applies; all touched modules build; the existing tests of the
 touched packages, `cmd/application` and `internal/` pass – `TestConjureLibConfigResolveBlocklisted` needs DNS and fails on the
